@@ -270,6 +270,11 @@ impl LAddr {
     }
 }
 
+/// listener names whose lexicographic order is the reverse of the registration order
+fn lname(i: usize) -> String {
+    ["zeta", "alpha", "beta"][i % 3].to_string()
+}
+
 fn free_port() -> std::io::Result<std::net::SocketAddr> {
     let l = std::net::TcpListener::bind("127.0.0.1:0")?;
     l.local_addr()
@@ -508,7 +513,7 @@ fn run_once_inner(c: &Case, prop: Prop) -> Result<Obs, (Fail, bool)> {
                 };
                 for (i, l) in tcp {
                     let w3 = w2.clone();
-                    b = match b.listen(format!("l{i}"), l, move || {
+                    b = match b.listen(lname(i), l, move || {
                         let w4 = w3.clone();
                         fn_factory(move || {
                             let w5 = w4.clone();
@@ -527,7 +532,7 @@ fn run_once_inner(c: &Case, prop: Prop) -> Result<Obs, (Fail, bool)> {
                 }
                 for (i, l) in uds {
                     let w3 = w2.clone();
-                    b = match b.listen_uds(format!("l{i}"), l, move || {
+                    b = match b.listen_uds(lname(i), l, move || {
                         let w4 = w3.clone();
                         fn_factory(move || {
                             let w5 = w4.clone();
@@ -546,7 +551,7 @@ fn run_once_inner(c: &Case, prop: Prop) -> Result<Obs, (Fail, bool)> {
                 }
                 for (i, list) in tcp_bind {
                     let w3 = w2.clone();
-                    b = match b.bind(format!("l{i}"), &list[..], move || {
+                    b = match b.bind(lname(i), &list[..], move || {
                         let w4 = w3.clone();
                         fn_factory(move || {
                             let w5 = w4.clone();
@@ -565,7 +570,7 @@ fn run_once_inner(c: &Case, prop: Prop) -> Result<Obs, (Fail, bool)> {
                 }
                 for (i, path) in uds_bind {
                     let w3 = w2.clone();
-                    b = match b.bind_uds(format!("l{i}"), &path, move || {
+                    b = match b.bind_uds(lname(i), &path, move || {
                         let w4 = w3.clone();
                         fn_factory(move || {
                             let w5 = w4.clone();
